@@ -50,7 +50,7 @@ func coreSpaces() []gen.Space {
 
 func c01(r *mon.Run) {
 	r.Rule = "exhaustive: every core-fragment tree (identifiers unquoted/quoted incl. \"\" and non-ASCII, sub-expressions, indices 0 1 -1 2 -3, literals, raw string, @, parentheses, pipe, multi-select list/hash standalone and after a dot) with <= 2 operator nodes x a 40-document universe (every key holds each JSON type at depth 0-2), both API entry points; " +
-		"thorough: additionally every tree with 3 operator nodes on 2 documents each; plus seeded random deep core trees on random typed documents; plus 10 key names x 15 near-miss neighbours (first letter's case, all upper / lower, prefix, suffix, space, underscore, empty) present instead of or next to the key, in 7 expression forms; plus every index from -(len+3) to len+3 on arrays of 0...9, 15...17, 63...65, 255...257 elements in five positions; plus paths of 1...400 steps (2000 in thorough) in six shapes (distinct keys, fields and indices alternating, self-similar a.a.a… and [1][1][1]…, cut by a pipe, inside a multi-select) on documents where skipping or repeating one step changes the answer. node-kind pairs: 49 representatives of every node kind in each of the 38 single-hole grammar contexts and in every context of every context, on 3 documents (the trees this property owns: no function, operator or projection). A fixed quarter of all cases is preceded by a failing or odd call (process-wide state must not leak). Oracle: ref.RefSet (independent evaluator, calibrated on the 768 applicable compliance cases). " +
+		"thorough: additionally every tree with 3 operator nodes on 2 documents each; plus seeded random deep core trees on random typed documents; plus 98 awkward member names (syntax look-alikes, quotes and backslash runs, dotted names next to the nested path they would spell) as quoted identifiers in 8 positions; plus 10 key names x 15 near-miss neighbours (first letter's case, all upper / lower, prefix, suffix, space, underscore, empty) present instead of or next to the key, in 7 expression forms; plus every index from -(len+3) to len+3 on arrays of 0...9, 15...17, 63...65, 255...257 elements in five positions; plus paths of 1...400 steps (2000 in thorough) in six shapes (distinct keys, fields and indices alternating, self-similar a.a.a… and [1][1][1]…, cut by a pipe, inside a multi-select) on documents where skipping or repeating one step changes the answer. node-kind pairs: 49 representatives of every node kind in each of the 38 single-hole grammar contexts and in every context of every context, on 3 documents (the trees this property owns: no function, operator or projection). A fixed quarter of all cases is preceded by a failing or odd call (process-wide state must not leak). Oracle: ref.RefSet (independent evaluator, calibrated on the 768 applicable compliance cases). " +
 		"Non-trivial = distinct (expression, document) whose expected result is non-null; 'null because of a miss' is counted separately."
 	r.Exhaustive = true
 	r.Floor = 5000
@@ -221,6 +221,39 @@ func c01(r *mon.Run) {
 			res, _, _ := cx.runBoth(tree, expr, doc)
 			c01Account(t, tree, expr, doc, res, i)
 			t.Count("near-miss key cases")
+		}})
+	// awkward member names (syntax look-alikes, delimiters and escapes, dots with a nested decoy) as quoted
+	// identifiers in every position a name can stand in
+	const akForms = 8
+	ws = append(ws, mon.Workload{Name: "awkward-keys", N: len(awkwardKeys) * akForms,
+		Do: func(i int, t *mon.Tally) {
+			k := awkwardKeys[i/akForms]
+			obj := awkwardDoc(k)
+			K := gen.QField(k)
+			var tree *gen.Expr
+			var doc interface{} = obj
+			switch i % akForms {
+			case 0:
+				tree = K
+			case 1:
+				tree, doc = gen.Chain(gen.Field("o"), gen.StQField(k)), map[string]interface{}{"o": obj}
+			case 2:
+				tree = gen.MultiHash([]gen.Key{{Name: k, Quoted: true}}, []*gen.Expr{K})
+			case 3:
+				tree = gen.MultiList(K, gen.LitVal(k)) // (a raw string cannot end in a backslash: the value is written as a JSON literal)
+			case 4:
+				tree, doc = gen.Chain(gen.Field("rows"), gen.StListStar(), gen.StQField(k)), map[string]interface{}{"rows": []interface{}{obj, map[string]interface{}{}, obj}}
+			case 5:
+				tree, doc = gen.Pipe(gen.Field("o"), K), map[string]interface{}{"o": obj}
+			case 6:
+				tree, doc = gen.Chain(gen.Field("o"), gen.StQField(k), gen.StQField(k)), map[string]interface{}{"o": map[string]interface{}{k: obj}}
+			default:
+				tree, doc = gen.Chain(gen.Field("labels"), gen.StQField(k)), map[string]interface{}{"labels": obj, "metadata": map[string]interface{}{"labels": obj}}
+			}
+			expr := gen.SpellTight(tree)
+			cx := &caseCtx{r, t, "awkward-keys", i}
+			res, _, _ := cx.runBoth(tree, expr, doc)
+			c01Account(t, tree, expr, doc, res, i)
 		}})
 	nrand := tierPick(r, 40000, 1000000)
 	ws = append(ws, mon.Workload{Name: "core-random", N: nrand,
